@@ -28,6 +28,11 @@ RULE = ('histories of 15..60 events on a started SvsInst (sync_interval in {1.25
         '{0.25,0.5,1,2} s, last_used_seq_num in {0,1,5,2^32,2^63}, 0..2 publications before start): received vectors '
         'newer / older / equal / incomparable / subset / unknown-node / over-claiming / self-ok / duplicate ids / '
         'entries without name or without sequence number / byte-mutated / random bytes / wrong name length; '
+        'hand-encoded vectors (no library encoder): one entry of every presence shape {Name only, SeqNo only, empty entry, '
+        'empty Name + SeqNo, empty Name only} for a known / unknown / own / fresh node at the first / middle / last position of a '
+        'newer / older / equal / mixed / over-claiming / empty rest, SeqNo in 1/2/4/8 bytes, singly, inside suppression windows and '
+        'as directed sweeps from one state; the oracle reads every received component of canonical layout off the wire itself '
+        '(accepted / denote are evaluated on those entries, not on what the library decoded); '
         'publications; clock moves that stop short of, hit exactly, or pass the timer; directed suppression windows '
         '(opener + 1..3 further vectors + expiry).  One case = one micro-step; non-trivial = it changed or read a '
         'vector (accepted/rejected vector, publication, timer expiry); distinct by (state, event) hash')
@@ -35,7 +40,9 @@ ASSUMPTIONS = [
     'time is counted in ticks of 2**-18 s; the float arithmetic of sample_sync_timer/sample_sup_timer is exact to far '
     'below one tick for the intervals used, and times are compared after rounding to ticks',
     'decoding of the StateVec name component is performed by the real ndn.app_support.svs.tlv classes in the adapter; '
-    'the model starts from the decoded entries (or the class of decoding failure)',
+    'the model starts from the decoded entries (or the class of decoding failure); the ORACLE takes the entries of a component '
+    'of canonical layout (StateVec{Entry{Name{generic components}? SeqNo(1|2|4|8 bytes)?}*}, shortest-form numbers, exact '
+    'lengths) from a 40-line strict reader in the harness instead, and reports a decoder that reads something else there',
     'last_used_seq_num >= 0; start()/stop() lifecycle other than construct, publish*, start is not modelled',
     'between events the loop runs to quiescence (DESIGN 2.6): a packet is never handled between new_data() and the '
     'timer task waking up',
@@ -210,6 +217,92 @@ def mk_component(entries):
 
 DIGEST = b'\x02\x20' + bytes(32)
 
+# ---------------------------------------------------------------------------------------------------
+# an independent reading of received vectors.  What counts as "the received vector" in the property is what is on the
+# WIRE; for components that have exactly the canonical layout below the oracle therefore reads the entries itself and
+# does not depend on what ndn.app_support.svs.tlv makes of them (a decoder that fills in, drops or reorders something
+# would otherwise blind the oracle together with the code under test).
+def read_num_min(buf, o):
+    """one TLV-VAR number in its shortest encoding -> (value, next offset); anything else raises"""
+    b = buf[o]
+    if b < 253:
+        return b, o + 1
+    n, lo = {253: (2, 253), 254: (4, 1 << 16), 255: (8, 1 << 32)}[b]
+    if o + 1 + n > len(buf):
+        raise ValueError('truncated number')
+    v = int.from_bytes(buf[o + 1:o + 1 + n], 'big')
+    if v < lo:
+        raise ValueError('number not in shortest form')
+    return v, o + 1 + n
+
+
+def read_tlv_min(buf, off):
+    t, o = read_num_min(buf, off)
+    ln, o = read_num_min(buf, o)
+    if o + ln > len(buf):
+        raise ValueError('element overruns its container')
+    return t, bytes(buf[o:o + ln]), o + ln
+
+
+def strict_entries(comp):
+    """entries [[node-name TLV bytes]?, [seq]?] of a StateVec name component of the canonical layout
+         StateVec { Entry { Name{generic components}?  SeqNo(1|2|4|8 bytes)? } * }
+    (shortest-form type/length numbers, elements in this order, nothing else, every length exact), or None when the
+    component is anything else (then the adapter's classification through the library's decoder is all there is).
+    An absent Name and a Name without components both read as 'no id', as the model's input convention has it."""
+    try:
+        comp = bytes(comp)
+        t_vec, t_ent, t_seq = wire_types()
+        t, body, end = read_tlv_min(comp, 0)
+        if t != t_vec or end != len(comp):
+            return None
+        out, off = [], 0
+        while off < len(body):
+            t, ent, off = read_tlv_min(body, off)
+            if t != t_ent:
+                return None
+            o, nid, seq = 0, None, None
+            if o < len(ent) and ent[o] == 7:
+                _, nm, o2 = read_tlv_min(ent, o)
+                p = 0
+                while p < len(nm):
+                    ct, cv, p = read_tlv_min(nm, p)
+                    if ct != 8:
+                        return None
+                if nm:
+                    nid = ent[o:o2]
+                o = o2
+            if o < len(ent):
+                t, v, o = read_tlv_min(ent, o)
+                if t != t_seq or len(v) not in (1, 2, 4, 8):
+                    return None
+                seq = int.from_bytes(v, 'big')
+            if o != len(ent):
+                return None
+            out.append([opt(nid), opt(seq)])
+        return out
+    except Exception:   # noqa
+        return None
+
+
+def seq_bytes(rng, q):
+    """a NonNegativeInteger for q: the shortest of 1/2/4/8 bytes, or (when rng is given) sometimes a wider one"""
+    ws = [w for w in (1, 2, 4, 8) if q < (1 << (8 * w))]
+    w = ws[0] if rng is None or rng.random() < 0.7 else rng.choice(ws)
+    return q.to_bytes(w, 'big')
+
+
+def hand_component(entries, rng=None):
+    """entries: (name TLV bytes | None, seq | None) -> StateVec component written byte by byte (no library encoder):
+    an entry is exactly the elements it is given, so every presence combination of Name / SeqNo can be put on the wire"""
+    t_vec, t_ent, t_seq = wire_types()
+    body = b''
+    for n, q in entries:
+        body += G.tlv(t_ent, (n or b'') + (b'' if q is None else G.tlv(t_seq, seq_bytes(rng, q))))
+    return G.tlv(t_vec, body)
+
+
+
 
 # ---------------------------------------------------------------------------------------------------
 class Runner:
@@ -382,8 +475,19 @@ class Runner:
             env.rnd = r
             cls = env.classify(comps)
             name = list(env.base) + [bytes(c) for c in comps]
+            wire = cls[1] if cls[0] == 4 and cls[1] else None
+            # the oracle judges the vector that is on the wire: read independently whenever the layout is canonical
+            sw = strict_entries(comps[0]) if len(comps) == 2 else None
+            if sw is not None:
+                self.ctx.stat('recv:wire-read-independently')
+                if (sw or None) != wire:
+                    self.ctx.stat('recv:decoder-differs-from-wire')
+                    if not self.broken:
+                        self.disagree('StateVecWrapper.parse', 'the entries the library decodes from a canonically laid out '
+                                      'StateVec component are not the entries on the wire', sw, cls)
+                wire = sw or None
             self.micro('recv', lambda: env.inst.sync_handler(name, None, None, None),
-                       [[0, now, r, cls], [2, now, r]], wire=cls[1] if cls[0] == 4 and cls[1] else None)
+                       [[0, now, r, cls], [2, now, r]], wire=wire)
         elif ev[0] == 'pub':
             env.rnd = ev[1]
             self.micro('pub', env.inst.new_data, [[1], [2, now, ev[1]]])
@@ -497,9 +601,79 @@ def gen_vector(rng, rn, kind):
 VEC_KINDS = ['newer', 'older', 'equal', 'mixed', 'mixed', 'mixed', 'overclaim', 'dup', 'noid', 'noseq']
 
 
+# presence shapes of ONE entry, written by hand: (has Name, Name has components, has SeqNo)
+ENTRY_SHAPES = {
+    'name-only': (True, True, False),           # an id but no sequence number: the whole vector is malformed
+    'seq-only': (False, False, True),           # no id: the entry says nothing, the rest of the vector counts
+    'empty-entry': (False, False, False),
+    'empty-name+seq': (True, False, True),
+    'empty-name-only': (True, False, False),
+}
+SHAPE_WHO = ['known', 'unknown', 'self', 'fresh']
+SHAPE_REST = ['newer', 'older', 'equal', 'mixed', 'none', 'overclaim']
+
+
+def shaped_vector(rng, rn, shape, who, rest, pos):
+    """hand-encoded vector: the entries of a well-formed vector of kind `rest` (relative to the local vector) with one
+    entry of presence shape `shape` (for node `who`) inserted at relative position `pos` in 0..1 (+ rarely a second one)"""
+    env = rn.env
+    loc = dict(env.snap()['local'])
+    sid = env.self_id
+    es = [] if rest == 'none' else [(k, q) for (k, q) in gen_vector(rng, rn, rest) if k is not None and q is not None]
+    has_name, has_comps, has_seq = ENTRY_SHAPES[shape]
+    known = [k for k in loc if k != sid and len(k) <= 24]
+    if who == 'known' and known:
+        nid = rng.choice(known)
+    elif who == 'self':
+        nid = sid
+    elif who == 'fresh':
+        nid = b'\x07\x05\x08\x03f' + bytes([0x30 + rng.randrange(10), 0x30 + rng.randrange(10)])
+    else:
+        nid = rng.choice([n for n in NODES if n not in loc and n != sid] or NODES)
+    name = None if not has_name else nid if has_comps else b'\x07\x00'
+    base = loc.get(nid, 0)
+    seq = None if not has_seq else min(MAXSEQ, rng.choice([0, 1, base, base + 1, base + 9, 2 ** 32, MAXSEQ]))
+    bad = (name, seq)
+    es.insert(int(round(pos * len(es))), bad)
+    if rng.random() < 0.1:
+        es.insert(rng.randint(0, len(es)), bad)
+    return es
+
+
+def gen_shaped(rng, rn):
+    shape = rng.choice(list(ENTRY_SHAPES))
+    who, rest, pos = rng.choice(SHAPE_WHO), rng.choice(SHAPE_REST), rng.choice([0.0, 0.5, 1.0, rng.random()])
+    rn.ctx.stat('gen:shape-' + shape)
+    return hand_component(shaped_vector(rng, rn, shape, who, rest, pos), rng)
+
+
+def run_shapes(rng, rn):
+    """directed: at the current state (whatever it is: steady or inside a suppression window), every presence shape of
+    an entry x whose id it carries x what the rest of the vector is, at the first / middle / last position.  A vector
+    that is not accepted must leave the instance untouched, so the enumeration proceeds from one state for those."""
+    n = 0
+    full = rn.ctx.thorough and rng.random() < 0.2           # the full product (120 vectors) now and then, else a slice of it
+    whos = SHAPE_WHO if full else [rng.choice(SHAPE_WHO[:2]), rng.choice(SHAPE_WHO[2:])]
+    for shape in ENTRY_SHAPES:
+        for who in whos:
+            for rest in (SHAPE_REST if full else rng.sample(SHAPE_REST[:4] + SHAPE_REST[5:], 2) + ['none']):
+                pos = rng.choice([0.0, 0.5, 1.0])
+                rn.ctx.stat('gen:shape-' + shape)
+                rn.do(['recv', rng.getrandbits(16), [hand_component(shaped_vector(rng, rn, shape, who, rest, pos), rng), DIGEST]])
+                n += 1
+    return n
+
+
 def gen_recv(rng, rn):
     r = rng.choice([0, 65535, rng.getrandbits(16), rng.getrandbits(16)])
     c = rng.random()
+    if c < 0.12:
+        return ['recv', r, [gen_shaped(rng, rn), DIGEST]]
+    if c < 0.18:
+        # a well-formed vector of any kind, but written by hand (SeqNo in 1/2/4/8 bytes, not only the shortest)
+        kind = rng.choice(VEC_KINDS[:8])
+        rn.ctx.stat('gen:hand-' + kind)
+        return ['recv', r, [hand_component(gen_vector(rng, rn, kind), rng), DIGEST]]
     if c < 0.80:
         kind = rng.choice(VEC_KINDS)
         comp = mk_component(gen_vector(rng, rn, kind))
@@ -559,10 +733,13 @@ def run_window(rng, rn):
         return ['recv', rng.getrandbits(16), [mk_component(gen_vector(rng, rn, kind)), DIGEST]]
     plan = [lambda: vec('older')]
     for _ in range(rng.randint(0, 3)):
-        k = rng.choice(['older', 'older', 'newer', 'equal', 'mixed', 'overclaim', 'noseq'])
+        k = rng.choice(['older', 'older', 'newer', 'equal', 'mixed', 'overclaim', 'noseq', 'shaped'])
         if rng.random() < 0.3:
             plan.append(lambda: ['adv', max(1, rn.Sup // 8), 0])
-        plan.append(lambda k=k: vec(k))
+        if k == 'shaped':
+            plan.append(lambda: ['recv', rng.getrandbits(16), [gen_shaped(rng, rn), DIGEST]])
+        else:
+            plan.append(lambda k=k: vec(k))
     if rng.random() < 0.15:
         plan.append(lambda: ['pub', rng.getrandbits(16)])
     plan.append(lambda: gen_adv_fire(rng, rn))
@@ -602,8 +779,10 @@ def random_history(ctx, rng, nev):
             elif c < 0.82:
                 rn.do(gen_adv(rng, rn))
                 n += 1
-            else:
+            elif c < 0.97 or n + 20 > nev:
                 n += run_window(rng, rn)
+            else:
+                n += run_shapes(rng, rn)
     finally:
         rn.close()
     return rn
